@@ -92,7 +92,18 @@ def main() -> None:
             if isinstance(m, str) and any(c in m for c in "wax+") and str(path).startswith(workdir):
                 log.write(json.dumps({"fsop": "create", "dst": os.path.basename(str(path)), "n": state["n"], "save": state["save_calls"]}) + "\n")
         elif event == "os.rename" and str(args[0]).startswith(workdir):
-            log.write(json.dumps({"fsop": "rename", "src": os.path.basename(str(args[0])), "dst": os.path.basename(str(args[1])), "n": state["n"], "save": state["save_calls"]}) + "\n")
+            # is the source still held open for writing by this process?  (then its data may still sit in a user-space buffer)
+            src_open = False
+            try:
+                for fd in os.listdir("/proc/self/fd"):
+                    try:
+                        if os.readlink(f"/proc/self/fd/{fd}") == os.path.abspath(str(args[0])):
+                            src_open = True
+                    except OSError:
+                        pass
+            except OSError:
+                pass
+            log.write(json.dumps({"fsop": "rename", "src": os.path.basename(str(args[0])), "dst": os.path.basename(str(args[1])), "n": state["n"], "save": state["save_calls"], "src_open": src_open}) + "\n")
         elif event == "os.remove" and str(args[0]).startswith(workdir):
             log.write(json.dumps({"fsop": "remove", "dst": os.path.basename(str(args[0])), "n": state["n"], "save": state["save_calls"]}) + "\n")
 
